@@ -132,6 +132,14 @@ class NPProxy:
             return self._over[n]
         return getattr(real_np, n)
 
+    @property
+    def pi(self):
+        if self._over.get('sym_pi'):
+            # pi as 180*K with the angle form "180 degrees, in radians" (K = pi/180 symbolic)
+            from fractions import Fraction
+            return SN(180 * core.CTX.K, ({}, Fraction(180), 1))
+        return real_np.pi
+
     # -- predicates
     def isfinite(self, a):
         if _has_sym(a):
